@@ -59,6 +59,8 @@ def run(ctx):
         summary_cache(ctx, built, tmp)
         dimension_record_cache(ctx, tmp)
         trust_unstore_cached(ctx, tmp)
+        after_contexts(ctx, tmp)
+        cloned_clients(ctx, tmp)
 
 
 # ------------------------------------------------------------------ (a) file cache
@@ -434,6 +436,200 @@ def dataset_type_cache(ctx, tmp):
                  "dataset-type-cache-forgets-calibration-table" if all("Assertion" in str(got[k]) for k in diff) else f"dtcache:{seq}",
                  {"kind": "dtcache", "warmup": [list(x) for x in seq], "differs": [str(k) for k in diff[:5]]})
         del bt
+
+
+# ------------------------------------------------------------------ (g) once every caching context is left the caches are off
+def after_contexts(ctx, tmp):
+    """A client enters caching contexts (nested up to three deep, some through calls that open one themselves), something fails
+    at the innermost level and is caught at a random level (outside all of them, or inside an outer one); when the client is
+    back outside every context it must answer like a client that never used one: another client's new collections and datasets
+    are seen, and a chain edit is accepted."""
+    from lsst.daf.butler import Butler, CollectionType, DatasetType
+
+    rng = ctx.rng
+    root = os.path.join(tmp, "g")
+    a = repo.make_butler(root)
+    repo.basic_dimensions(a, detectors=(1, 2, 3))
+    dt = DatasetType("gt", {"instrument", "detector"}, "StructuredDataDict", universe=a.dimensions)
+    a.registry.registerDatasetType(dt)
+    a.registry.registerRun("g_base")
+    a.put({"v": 0}, dt, instrument="I", detector=1, run="g_base")
+    w = Butler.from_config(root, writeable=True)  # the other client, which writes
+    list(w.registry.queryDatasetTypes())
+    n_hist = 14 if ctx.quick() else 200
+
+    class Boom(Exception):
+        pass
+
+    def viol(what, key, replay):
+        ctx.violations.append(core.Violation(what=what, key=key, replay=replay))
+
+    def view(bt, colls):
+        out = {"collections": sorted(bt.registry.queryCollections())}
+        for c in colls:
+            try:
+                out[f"queryDatasets {c}"] = sorted(str(r.id) for r in bt.registry.queryDatasets(dt, collections=[c]))
+            except Exception as e:
+                out[f"queryDatasets {c}"] = type(e).__name__
+            try:
+                out[f"query_datasets {c}"] = sorted(str(r.id) for r in bt.query_datasets(dt, collections=[c], explain=False))
+            except Exception as e:
+                out[f"query_datasets {c}"] = type(e).__name__
+            try:
+                out[f"flatten {c}"] = list(bt.registry.queryCollections(c, flattenChains=True))
+            except Exception as e:
+                out[f"flatten {c}"] = type(e).__name__
+        return out
+
+    for h in range(n_hist):
+        chain, tag = f"g_chain{h}", f"g_tag{h}"
+        a.registry.registerCollection(tag, CollectionType.TAGGED)
+        a.registry.registerCollection(chain, CollectionType.CHAINED)
+        a.registry.setCollectionChain(chain, ["g_base", tag])
+        depth = rng.randint(1, 3)
+        fail = rng.choice(["none", "raise", "raise", "removeRuns-of-tagged", "query-bad-collection"])
+        catch_at = rng.randint(0, depth - 1) if fail != "none" else None
+        if h == 0:
+            depth, fail, catch_at = 1, "removeRuns-of-tagged", 1  # the failing call opens the second context itself
+        shape = {"depth": depth, "fails": fail, "caught_with_contexts_open": catch_at}
+        caught = []
+
+        def nest(level):
+            def body():
+                if level == depth:
+                    view(a, [chain])  # fills the caches
+                    if fail == "raise":
+                        raise Boom()
+                    if fail == "removeRuns-of-tagged":
+                        a.removeRuns([tag])  # refused: not a RUN; opens a caching context of its own
+                    if fail == "query-bad-collection":
+                        with a.registry.caching_context():
+                            a.registry.queryDatasets(dt, collections=[f"g_missing{h}"]).any()
+                    return
+                with a.registry.caching_context():
+                    nest(level + 1)
+
+            if catch_at is not None and level == catch_at:
+                try:
+                    body()
+                except Exception as e:
+                    caught.append(type(e).__name__)
+                    if level > 0:
+                        view(a, [chain])
+            else:
+                body()
+
+        try:
+            nest(0)
+        except Exception as e:
+            ctx.broken.append(f"after_contexts: shape {shape}: {type(e).__name__}: {e} escaped")
+            continue
+        if fail != "none" and not caught:
+            ctx.notes.append(f"after_contexts: shape {shape}: the planned failure did not happen")
+        # the other client now adds a run to the repository, a dataset in it, and puts the run into the chain
+        newrun = f"g_new{h}"
+        w.registry.registerRun(newrun)
+        w.put({"v": h}, dt, instrument="I", detector=rng.choice((1, 2, 3)), run=newrun)
+        w.collections.prepend_chain(chain, [newrun])
+        fresh = Butler.from_config(root, writeable=False)
+        va, vf = view(a, [chain, newrun]), view(fresh, [chain, newrun])
+        ctx.evaluations += 1
+        ctx.count(f"after-contexts:{fail}" + ("" if catch_at is None else ":caught-inside" if catch_at > 0 else ":caught-outside"))
+        ctx.nontrivial.add(repr(shape))
+        if va != vf:
+            diff = [k for k in vf if va.get(k) != vf[k]]
+            viol(f"a client that has left every caching context (shape {shape}, caught {caught}) answers {diff[0]} with {va.get(diff[0])} "
+                 f"after another client added run {newrun} to the chain; a client without caches answers {vf[diff[0]]}",
+                 f"after-contexts:{fail}:{depth}:{catch_at}", {"kind": "after-contexts", "shape": shape, "differs": diff})
+            continue
+        # and a chain edit by the client itself is accepted (it is refused only while a caching context is active)
+        try:
+            a.collections.extend_chain(chain, [tag]) if rng.random() < 0.5 else a.collections.remove_from_chain(chain, [tag])
+            va, vf = view(a, [chain]), view(Butler.from_config(root, writeable=False), [chain])
+            if va != vf:
+                viol(f"after its own chain edit outside any caching context (shape {shape}) the client flattens {chain} to {va[f'flatten {chain}']}, "
+                     f"a fresh client to {vf[f'flatten {chain}']}", f"after-contexts-edit:{fail}:{depth}:{catch_at}", {"kind": "after-contexts", "shape": shape})
+        except Exception as e:
+            viol(f"a client that has left every caching context (shape {shape}, caught {caught}) is refused a chain edit: {type(e).__name__}: {e}",
+                 f"after-contexts-edit-refused:{fail}:{depth}:{catch_at}", {"kind": "after-contexts", "shape": shape})
+        del fresh
+
+
+# ------------------------------------------------------------------ (h) a cloned client is a new client
+def cloned_clients(ctx, tmp):
+    """Butler.clone() makes a new client: whatever the original had cached (all dataset types listed, some looked up by name,
+    collection lists), the clone answers like a client opened from the configuration at the same moment - in particular it sees
+    the dataset types, collections and datasets other clients added before it was made."""
+    from lsst.daf.butler import Butler, DatasetType
+
+    rng = ctx.rng
+    root = os.path.join(tmp, "hc")
+    w = repo.make_butler(root)
+    repo.basic_dimensions(w, detectors=(1, 2))
+    base = DatasetType("h_base", {"instrument", "detector"}, "StructuredDataDict", universe=w.dimensions)
+    w.registry.registerDatasetType(base)
+    w.registry.registerRun("h_run")
+    w.put({"v": 0}, base, instrument="I", detector=1, run="h_run")
+    n_hist = 10 if ctx.quick() else 120
+
+    def viol(what, key, replay):
+        ctx.violations.append(core.Violation(what=what, key=key, replay=replay))
+
+    def battery(bt, names, runs):
+        out = {"types": sorted(t.name for t in bt.registry.queryDatasetTypes()),
+               "types h_*": sorted(t.name for t in bt.registry.queryDatasetTypes("h_*")),
+               "collections": sorted(bt.registry.queryCollections())}
+        for api in ("queryDatasets ...", "_query_all_datasets"):
+            try:
+                if api == "queryDatasets ...":
+                    v = sorted(str(r.id) for r in bt.registry.queryDatasets(..., collections=runs))
+                else:
+                    v = sorted(str(r.id) for r in bt._query_all_datasets(collections=runs, find_first=False))
+            except Exception as e:
+                v = type(e).__name__
+            out[api] = v
+        for n in names:
+            try:
+                out[f"query_datasets {n}"] = sorted(str(r.id) for r in bt.query_datasets(n, collections=runs, explain=False))
+            except Exception as e:
+                out[f"query_datasets {n}"] = type(e).__name__
+        return out
+
+    warmups = {
+        "list-all-types": lambda bt: list(bt.registry.queryDatasetTypes()),
+        "glob-types": lambda bt: list(bt.registry.queryDatasetTypes("h_*")),
+        "by-name": lambda bt: bt.get_dataset_type("h_base"),
+        "query-all": lambda bt: bt._query_all_datasets(collections=["h_run"], find_first=False),
+        "query-one": lambda bt: bt.query_datasets("h_base", collections=["h_run"], explain=False),
+        "collections": lambda bt: list(bt.registry.queryCollections()),
+        "refresh": lambda bt: bt.registry.refresh(),
+        "nothing": lambda bt: None,
+    }
+    names, runs = ["h_base"], ["h_run"]
+    for h in range(n_hist):
+        a = Butler.from_config(root, writeable=False)
+        seq = ["list-all-types"] if h == 0 else [rng.choice(sorted(warmups)) for _ in range(rng.randint(1, 3))]
+        for op in seq:
+            warmups[op](a)
+        # another client registers a dataset type (same or new dimensions), a run, and stores a dataset
+        dims = rng.choice([{"instrument", "detector"}, {"instrument"}])
+        nt = DatasetType(f"h_t{h}", dims, "StructuredDataDict", universe=w.dimensions)
+        w.registry.registerDatasetType(nt)
+        w.registry.registerRun(f"h_r{h}")
+        w.put({"v": h}, nt, {"instrument": "I", "detector": 2} if "detector" in dims else {"instrument": "I"}, run=f"h_r{h}")
+        names, runs = names + [nt.name], runs + [f"h_r{h}"]
+        c = a.clone()
+        second = c.clone() if rng.random() < 0.3 else c
+        got, want = battery(second, names[-3:], runs), battery(Butler.from_config(root, writeable=False), names[-3:], runs)
+        ctx.evaluations += 1
+        ctx.count("cloned-client")
+        ctx.nontrivial.add(repr((h, seq)))
+        if got != want:
+            diff = [k for k in want if got.get(k) != want[k]]
+            viol(f"a clone of a client that had done {seq} before another client registered dataset type {nt.name} answers {diff[0]} with "
+                 f"{got.get(diff[0])}; a client opened at the same moment answers {want[diff[0]]} ({len(diff)} probes differ)",
+                 f"clone:{seq}", {"kind": "clone", "warmup": seq, "differs": diff})
+        del a, c, second
 
 
 # ------------------------------------------------------------------ (e) the dimension-record cache and the client's own record writes
